@@ -71,9 +71,12 @@ def main():
                 evaluate(r.routine, {"N": s % 3 + 1})
     for s in seeds:
         if mode == "cleared":
-            from bartiq.symbolics.sympy_backend import _value_of
+            # clear every memoised function of the backend module (whatever they are called)
+            import bartiq.symbolics.sympy_backend as _sbm
 
-            _value_of.cache_clear()
+            for _v in list(vars(_sbm).values()):
+                if callable(getattr(_v, "cache_clear", None)):
+                    _v.cache_clear()
         q = floatify(G.to_qref(gen(s, None), G.Rendered()), s)
         print(s, export_digest(q), flush=True)
         print(-s, export_digest(floatify(numeric_doc(s), s)), flush=True)
